@@ -306,6 +306,93 @@ func runC06History(evs []c06Ev, ackMs, maxRt, nstart int) string {
 	return sb.String()
 }
 
+// genC06History draws one history (shared with C12).
+func genC06History(rng *Rng) ([]c06Ev, int, int, int) {
+	ack := []int{1000, 2000}[rng.Intn(2)]
+	maxrt := []int{0, 1, 2, 4, 4}[rng.Intn(5)]
+	nst := 1 + rng.Intn(2)
+	nreq := 1 + rng.Intn(3)
+	k := 4 + rng.Intn(10)
+	var evs []c06Ev
+	started := 0
+	pmid := 100
+	// virtual clock per request is unknown to the generator; keep a global clock and only use ages
+	// that keep every (now - sendTime) away from k*ack and from the deadlines by > 400 ms
+	now := 0
+	var sendTimes []int
+	var dls []int
+	okTime := func(t int) bool {
+		for i, st := range sendTimes {
+			el := t - st
+			for kk := 1; kk <= 6; kk++ {
+				d := el - kk*ack
+				if d > -400 && d < 400 {
+					return false
+				}
+			}
+			if dls[i] > 0 {
+				d := el - dls[i]
+				if d > -400 && d < 400 {
+					return false
+				}
+			}
+		}
+		return true
+	}
+	for len(evs) < k {
+		r := rng.Intn(100)
+		switch {
+		case started < nreq && (started == 0 || r < 15):
+			if !okTime(now) {
+				// admission may happen at this time: it must not sit on a boundary of another request... fine
+			}
+			tok := []byte{byte(0xC0 + started), byte(rng.U64()), byte(rng.U64())}
+			dl := 0
+			if rng.Chance(25) {
+				dl = []int{3000, 5000, 9000}[rng.Intn(3)]
+			}
+			evs = append(evs, c06Ev{Kind: "send", ID: started + 1, Tok: tok, DL: dl})
+			sendTimes = append(sendTimes, now)
+			dls = append(dls, dl)
+			started++
+		case r < 45:
+			ms := []int{500, ack + 500, ack - 500, 2*ack + 100, 700, 1500, 3000}[rng.Intn(7)]
+			// admissions of waiters start their clock later than the send; track conservatively by
+			// also registering the current time as a possible start whenever a slot may free up
+			if okTime(now + ms) {
+				now += ms
+				evs = append(evs, c06Ev{Kind: "age", Ms: ms})
+			}
+		case r < 70:
+			evs = append(evs, c06Ev{Kind: "tick"})
+		default:
+			if started == 0 {
+				continue
+			}
+			id := 1 + rng.Intn(started)
+			switch rng.Intn(6) {
+			case 0:
+				evs = append(evs, c06Ev{Kind: "ack", ID: id})
+			case 1:
+				evs = append(evs, c06Ev{Kind: "rst", ID: id})
+			case 2:
+				evs = append(evs, c06Ev{Kind: "piggy", ID: id, Code: []int{69, 68, 132}[rng.Intn(3)]})
+			case 3:
+				pmid++
+				evs = append(evs, c06Ev{Kind: "sep", ID: id, Code: []int{69, 65, 160}[rng.Intn(3)], PMID: pmid})
+			case 4:
+				evs = append(evs, c06Ev{Kind: "cancel", ID: id})
+			default:
+				evs = append(evs, c06Ev{Kind: "ack", ID: id})
+			}
+			// a slot may have been freed now: a waiter's clock may start here
+			sendTimes = append(sendTimes, now)
+			dls = append(dls, 0)
+		}
+	}
+	return evs, ack, maxrt, nst
+}
+
 func runC06(a runArgs) error {
 	e := NewEmitter("C06", "Retx.Run")
 	e.Preamble = "From GoCoap Require Import Retx.Model Retx.Spec."
@@ -340,88 +427,7 @@ func runC06(a runArgs) error {
 		n = 1500
 	}
 	for c := 0; c < n; c++ {
-		ack := []int{1000, 2000}[rng.Intn(2)]
-		maxrt := []int{0, 1, 2, 4, 4}[rng.Intn(5)]
-		nst := 1 + rng.Intn(2)
-		nreq := 1 + rng.Intn(3)
-		k := 4 + rng.Intn(10)
-		var evs []c06Ev
-		started := 0
-		pmid := 100
-		// virtual clock per request is unknown to the generator; keep a global clock and only use ages
-		// that keep every (now - sendTime) away from k*ack and from the deadlines by > 400 ms
-		now := 0
-		var sendTimes []int
-		var dls []int
-		okTime := func(t int) bool {
-			for i, st := range sendTimes {
-				el := t - st
-				for kk := 1; kk <= 6; kk++ {
-					d := el - kk*ack
-					if d > -400 && d < 400 {
-						return false
-					}
-				}
-				if dls[i] > 0 {
-					d := el - dls[i]
-					if d > -400 && d < 400 {
-						return false
-					}
-				}
-			}
-			return true
-		}
-		for len(evs) < k {
-			r := rng.Intn(100)
-			switch {
-			case started < nreq && (started == 0 || r < 15):
-				if !okTime(now) {
-					// admission may happen at this time: it must not sit on a boundary of another request... fine
-				}
-				tok := []byte{byte(0xC0 + started), byte(rng.U64()), byte(rng.U64())}
-				dl := 0
-				if rng.Chance(25) {
-					dl = []int{3000, 5000, 9000}[rng.Intn(3)]
-				}
-				evs = append(evs, c06Ev{Kind: "send", ID: started + 1, Tok: tok, DL: dl})
-				sendTimes = append(sendTimes, now)
-				dls = append(dls, dl)
-				started++
-			case r < 45:
-				ms := []int{500, ack + 500, ack - 500, 2*ack + 100, 700, 1500, 3000}[rng.Intn(7)]
-				// admissions of waiters start their clock later than the send; track conservatively by
-				// also registering the current time as a possible start whenever a slot may free up
-				if okTime(now + ms) {
-					now += ms
-					evs = append(evs, c06Ev{Kind: "age", Ms: ms})
-				}
-			case r < 70:
-				evs = append(evs, c06Ev{Kind: "tick"})
-			default:
-				if started == 0 {
-					continue
-				}
-				id := 1 + rng.Intn(started)
-				switch rng.Intn(6) {
-				case 0:
-					evs = append(evs, c06Ev{Kind: "ack", ID: id})
-				case 1:
-					evs = append(evs, c06Ev{Kind: "rst", ID: id})
-				case 2:
-					evs = append(evs, c06Ev{Kind: "piggy", ID: id, Code: []int{69, 68, 132}[rng.Intn(3)]})
-				case 3:
-					pmid++
-					evs = append(evs, c06Ev{Kind: "sep", ID: id, Code: []int{69, 65, 160}[rng.Intn(3)], PMID: pmid})
-				case 4:
-					evs = append(evs, c06Ev{Kind: "cancel", ID: id})
-				default:
-					evs = append(evs, c06Ev{Kind: "ack", ID: id})
-				}
-				// a slot may have been freed now: a waiter's clock may start here
-				sendTimes = append(sendTimes, now)
-				dls = append(dls, 0)
-			}
-		}
+		evs, ack, maxrt, nst := genC06History(rng)
 		emit(evs, ack, maxrt, nst)
 	}
 	// canonical: full retransmission schedule with defaults, then exhaustion
